@@ -333,6 +333,8 @@ CHECKS["C09"] = {
         c09run("cosim.fmp4.video", 0, 5, 5),
         c09run("cosim.fmp4.av1", 0, 4, 5, VCODEC=3, VKINDS=3),
         dict(c09run("cosim.ts.video", 0, 5, 6, VKINDS=2), params={"VARIANT": 1, "TRACKS": 0, "VKINDS": 2}),
+        # the input class of the C09 known finding: a declared audio track that receives no data
+        c09run("cosim.fmp4.silent-audio", 1, 4, 4, VKINDS=1, NOAUDIO=1),
         dict(c09run("cosim.fmp4.h265", 0, 5, 5, VCODEC=1, VKINDS=3), thorough_only=True),
         dict(c09run("cosim.fmp4.vp9", 0, 5, 5, VCODEC=2, VKINDS=3), thorough_only=True),
         dict(c09run("cosim.fmp4.video+audio", 1, 5, 5), thorough_only=True),
